@@ -38,6 +38,29 @@ thread_local! {
     /// "invalid builder returns the checking error" were really run (coverage floors, conf "floors")
     static EXERCISED: std::cell::RefCell<std::collections::BTreeMap<String, u64>> = std::cell::RefCell::new(std::collections::BTreeMap::new());
 }
+thread_local! {
+    /// guarded fields the request asked for, as `(field name, Debug text of the value)`: `probe` requires the builder's
+    /// Debug form to show exactly these values (read-back after ALL setters, including rebuild setters, were applied)
+    static EXPECT: std::cell::RefCell<Vec<(String, String)>> = std::cell::RefCell::new(vec![]);
+}
+fn expect(fields: &[(&str, String)]) {
+    EXPECT.with(|e| *e.borrow_mut() = fields.iter().map(|(n, v)| (n.to_string(), v.clone())).collect());
+}
+/// `name: value` occurs in a derived Debug text as a whole field (not as a prefix of a longer number / name)
+fn has_field(text: &str, name: &str, val: &str) -> bool {
+    let pat = format!("{}: {}", name, val);
+    let mut from = 0;
+    while let Some(i) = text[from..].find(&pat) {
+        let at = from + i;
+        let before_ok = at == 0 || !text[..at].chars().last().map_or(false, |c| c.is_ascii_alphanumeric() || c == '_');
+        let after_ok = text[at + pat.len()..].chars().next().map_or(true, |c| c == ',' || c == ' ' || c == ')' || c == '}');
+        if before_ok && after_ok {
+            return true;
+        }
+        from = at + pat.len();
+    }
+    false
+}
 fn exercised(kind: &str, b: &str) {
     EXERCISED.with(|m| *m.borrow_mut().entry(format!("{}:{}", kind, b)).or_insert(0) += 1);
 }
@@ -94,6 +117,10 @@ where
     let orig = show_u(&p);
     if std::env::var("C04_TRACE").is_ok() {
         eprintln!("{} {}", b, orig);
+    }
+    // read-back: the builder holds the values the request's setters were given
+    for (name, val) in EXPECT.with(|e| std::mem::take(&mut *e.borrow_mut())) {
+        ctx.require(has_field(&orig, &name, &val), "params_unchanged", &format!("{}:readback:{}", b, name), || format!("after all setter calls the builder does not hold {} = {}: {}", name, val, orig));
     }
     // check_ref
     let r1: Result<String, (String, String)> = match p.check_ref() {
@@ -345,6 +372,7 @@ pub fn run(em: &mut Em, rng: &mut Rng) {
                 // "exactly that error": the outer error types (KMeansError / IncrKMeansError) document the variant
                 // `InvalidParams(<checking error>)`; the expected text is written out here, NOT computed with the
                 // `From` impl under test
+                expect(&[("n_clusters", dbg(&k)), ("n_runs", dbg(&r)), ("tolerance", dbg(&tol)), ("max_n_iterations", dbg(&mi))]);
                 let conv = |e: linfa_clustering::KMeansParamsError| format!("InvalidParams({:?})", e);
                 if with {
                     probe(ctx, "KMeans", || p.clone(), viol, tol.is_finite(), |p| dbg(p), |c| dbg(c), conv, |p| res!(p.fit_with(None, &ds)), |c| res!(c.fit_with(None, &ds)))
@@ -363,6 +391,7 @@ pub fn run(em: &mut Em, rng: &mut Rng) {
             let p = linfa_clustering::Dbscan::params(mp).tolerance(tol);
             let viol = first(&[(mp >= 2, "min_points>=2"), (pos(tol), "tolerance>0")]);
             let x = xs();
+            expect(&[("min_points", dbg(&mp)), ("tolerance", dbg(&tol))]);
             probe(ctx, "Dbscan", || p.clone(), viol, tol.is_finite(), |p| dbg(p), |c| dbg(c), |e| dbg(&e), |p| res!(p.transform(&x)), |c| Ok(dbg(&c.transform(&x))))
         });
     }
@@ -377,6 +406,7 @@ pub fn run(em: &mut Em, rng: &mut Rng) {
             let p = linfa_clustering::Optics::params(mp).tolerance(tol);
             let viol = first(&[(pos(tol), "tolerance>0"), (mp >= 2, "min_points>=2")]);
             let x = xs();
+            expect(&[("min_points", dbg(&mp)), ("tolerance", dbg(&tol))]);
             probe(ctx, "Optics", || p.clone(), viol, tol.is_finite(), |p| dbg(p), |c| dbg(c), |e| dbg(&e), |p| res!(p.transform(x.view())), |c| Ok(dbg(&c.transform(x.view()))))
         });
     }
@@ -389,6 +419,7 @@ pub fn run(em: &mut Em, rng: &mut Rng) {
             let p = linfa_clustering::GaussianMixtureModel::params_with_rng(k, rng7()).tolerance(tol).reg_covariance(reg).n_runs(r as u64).max_n_iterations(mi as u64);
             let viol = first(&[(k >= 1, "n_clusters>=1"), (pos(tol), "tolerance>0"), (nonneg(reg), "reg_covar>=0"), (r >= 1, "n_runs>=1"), (mi >= 1, "max_n_iter>=1")]);
             let ds = DatasetBase::from(xs());
+            expect(&[("n_clusters", dbg(&k)), ("tolerance", dbg(&tol)), ("reg_covar", dbg(&reg)), ("n_runs", dbg(&r)), ("max_n_iter", dbg(&mi))]);
             probe(ctx, "Gmm", || p.clone(), viol, tol.is_finite() && reg.is_finite(), |p| dbg(p), |c| dbg(c), |e| dbg(&e), |p| res!(p.fit(&ds)), |c| res!(c.fit(&ds)))
         });
     }
@@ -402,12 +433,14 @@ pub fn run(em: &mut Em, rng: &mut Rng) {
             train_always();
             let p = linfa_elasticnet::ElasticNet::<f64>::params().penalty(pen).l1_ratio(l1).tolerance(tol).max_iterations(50);
             let ds = DatasetBase::new(xs(), ys_f());
+            expect(&[("penalty", dbg(&pen)), ("l1_ratio", dbg(&l1)), ("tolerance", dbg(&tol))]);
             probe(ctx, "ElasticNet", || p.clone(), viol.clone(), finite, |p| dbg(p), |c| dbg(c), |e| dbg(&e), |p| res!(p.fit(&ds)), |c| res!(c.fit(&ds)))
         });
         em.case(format!("grid b=ElasticNet task=multi penalty={} l1_ratio={} tolerance={}", h(pen), h(l1), h(tol)), |ctx| {
             train_always();
             let p = linfa_elasticnet::MultiTaskElasticNet::<f64>::params().penalty(pen).l1_ratio(l1).tolerance(tol).max_iterations(50);
             let ds = DatasetBase::new(xs(), ys_2());
+            expect(&[("penalty", dbg(&pen)), ("l1_ratio", dbg(&l1)), ("tolerance", dbg(&tol))]);
             probe(ctx, "ElasticNet", || p.clone(), viol.clone(), finite, |p| dbg(p), |c| dbg(c), |e| dbg(&e), |p| res!(p.fit(&ds)), |c| res!(c.fit(&ds)))
         });
     }
@@ -428,6 +461,7 @@ pub fn run(em: &mut Em, rng: &mut Rng) {
                 p = p.initial_params(Array1::from(v));
             }
             let ds = DatasetBase::new(xs(), ys_b());
+            expect(&[("alpha", dbg(&al)), ("gradient_tolerance", dbg(&gt))]);
             probe(ctx, "Logistic", || p.clone(), viol.clone(), finite, |p| dbg(p), |c| dbg(c), |e| dbg(&e), |p| res!(p.fit(&ds)), |c| res!(c.fit(&ds)))
         });
         // multinomial: the same values as a (features+1) x classes matrix, column-repeated
@@ -440,6 +474,7 @@ pub fn run(em: &mut Em, rng: &mut Rng) {
                 p = p.initial_params(Array2::from_shape_fn((3, 2), |(i, _)| v[i]));
             }
             let ds = DatasetBase::new(xs(), ys_u());
+            expect(&[("alpha", dbg(&al)), ("gradient_tolerance", dbg(&gt))]);
             probe(ctx, "Logistic", || p.clone(), viol.clone(), finite, |p| dbg(p), |c| dbg(c), |e| dbg(&e), |p| res!(p.fit(&ds)), |c| res!(c.fit(&ds)))
         });
     }
@@ -452,6 +487,7 @@ pub fn run(em: &mut Em, rng: &mut Rng) {
             let p = linfa_linear::TweedieRegressor::<f64>::params().alpha(al).power(pw).max_iter(20);
             let viol = first(&[(nonneg(al), "alpha>=0"), (pw.is_finite() && (pw <= 0.0 || pw >= 1.0), "power not in (0,1)")]);
             let ds = DatasetBase::new(xs(), ys_f());
+            expect(&[("alpha", dbg(&al)), ("power", dbg(&pw))]);
             probe(ctx, "Tweedie", || p.clone(), viol, al.is_finite() && pw.is_finite(), |p| dbg(p), |c| dbg(c), |e| dbg(&e), |p| res!(p.fit(&ds)), |c| res!(c.fit(&ds)))
         });
     }
@@ -492,6 +528,7 @@ pub fn run(em: &mut Em, rng: &mut Rng) {
                 let ds = DatasetBase::new(xs(), ys_b());
                 // training is only run for solver tolerances that terminate quickly
                 let runnable = eps >= 1e-4;
+                expect(&[("eps", dbg(&eps)), ("maxiter", dbg(&mi)), ("minstep", dbg(&ms)), ("sigma", dbg(&sg))]);
                 probe(ctx, "Svm", || p.clone(), viol, ms.is_finite() && sg.is_finite() && eps.is_finite() && wfin, |p| dbg(p), |c| dbg(c), |e| dbg(&e),
                     |p| if runnable || p.check_ref().is_err() { res!(p.fit(&ds)) } else { Ok("skipped".into()) },
                     |c| if runnable { res!(c.fit(&ds)) } else { Ok("skipped".into()) })
@@ -753,6 +790,7 @@ pub fn run(em: &mut Em, rng: &mut Rng) {
             let p = linfa_ftrl::Ftrl::<f64>::params_with_rng(rng7()).l1_ratio(l1).l2_ratio(l2).alpha(al).beta(be);
             let viol = first(&[(unit(l1), "0<=l1_ratio<=1"), (unit(l2), "0<=l2_ratio<=1"), (nonneg(al), "alpha>=0"), (nonneg(be), "beta>=0")]);
             let ds = DatasetBase::new(xs(), ys_b());
+            expect(&[("l1_ratio", dbg(&l1)), ("l2_ratio", dbg(&l2)), ("alpha", dbg(&al)), ("beta", dbg(&be))]);
             probe(ctx, "Ftrl", || p.clone(), viol, l1.is_finite() && l2.is_finite() && al.is_finite() && be.is_finite(), |p| dbg(p), |c| dbg(c), |e| dbg(&e),
                 |p| res!(p.fit_with(None, &ds)), |c| res!(c.fit_with(None, &ds)))
         });
@@ -792,6 +830,7 @@ pub fn run(em: &mut Em, rng: &mut Rng) {
                 // the embedding itself is only computed for parameter values bhtsne handles quickly
                 let runnable = pe.is_finite() && th_.is_finite() && pe >= 0.5 && pe <= 2.0;
                 let b = if form == "array" { "TSne" } else { "TSne:dataset" };
+                expect(&[("perplexity", dbg(&pe)), ("approx_threshold", dbg(&th_))]);
                 if form == "array" {
                     probe(ctx, b, || p.clone(), viol, pe.is_finite() && th_.is_finite(), |p| dbg(p), |c| dbg(c), |e| dbg(&e),
                         |p| if runnable || p.check_ref().is_err() { p.transform(xs()).map(|m| dbg(&m.dim())).map_err(|e| dbg(&e)) } else { Ok("skipped".into()) },
@@ -814,6 +853,7 @@ pub fn run(em: &mut Em, rng: &mut Rng) {
             let p = linfa_ica::fast_ica::FastIca::<f64>::params().tol(x).ncomponents(2).random_state(3).max_iter(10);
             let viol = first(&[(nonneg(x), "tol>=0")]);
             let ds = DatasetBase::from(xs());
+            expect(&[("tol", dbg(&x))]);
             probe(ctx, "FastIca", || p.clone(), viol, x.is_finite(), |p| dbg(p), |c| dbg(c), |e| dbg(&e), |p| res!(p.fit(&ds)), |c| res!(c.fit(&ds)))
         });
     }
@@ -826,6 +866,7 @@ pub fn run(em: &mut Em, rng: &mut Rng) {
             let p = linfa_reduction::DiffusionMap::<f64>::params(es).steps(st);
             let viol = first(&[(st >= 1, "steps>=1"), (es >= 1, "embedding_size>=1")]);
             let k = kernel();
+            expect(&[("steps", dbg(&st)), ("embedding_size", dbg(&es))]);
             probe(ctx, "DiffusionMap", || p.clone(), viol, true, |p| dbg(p), |c| dbg(c), |e| dbg(&e), |p| res!(p.transform(&k)), |c| Ok(dbg(&c.transform(&k))))
         });
     }
@@ -943,6 +984,7 @@ pub fn run(em: &mut Em, rng: &mut Rng) {
                     let (utf8, strict) = (linfa_preprocessing::verif_hooks_c04::utf8, linfa_preprocessing::verif_hooks_c04::strict);
                     let bname = format!("CountVectorizer:{}", form.split(':').nth(1).unwrap());
                     let bname = if form == "and_then:fit" { "CountVectorizer".to_string() } else { bname };
+                    expect(&[("n_gram_range", dbg(&(a, b))), ("document_frequency", dbg(&(lo as f32, hi as f32)))]);
                     probe(ctx, &bname, || p.clone(), viol, lo.is_finite() && hi.is_finite(), |p| show(dbg(p)), |c| show(dbg(c)), |e| dbg(&e),
                         |p| match form {
                             "and_then:fit" => p.fit(&docs).map(|m| voc(m.vocabulary())).map_err(|e| dbg(&e)),
@@ -973,6 +1015,7 @@ pub fn run(em: &mut Em, rng: &mut Rng) {
             let p = Platt::<f64, FirstColumn>::params().maxiter(mi).minstep(ms).sigma(sg);
             let viol = first(&[(mi >= 1, "maxiter>=1"), (nonneg(ms), "minstep>=0"), (nonneg(sg), "sigma>=0")]);
             let ds = DatasetBase::new(xs(), ys_b());
+            expect(&[("maxiter", dbg(&mi)), ("minstep", dbg(&ms)), ("sigma", dbg(&sg))]);
             probe(ctx, "Platt", || p.clone(), viol, ms.is_finite() && sg.is_finite(), |p| dbg(p), |c| dbg(c), |e: PlattError| dbg(&e),
                 |p| res!(p.fit_with(FirstColumn, &ds)), |c| res!(c.fit_with(FirstColumn, &ds)))
         });
@@ -1034,6 +1077,7 @@ pub fn run(em: &mut Em, rng: &mut Rng) {
             "-".to_string()
         });
     }
+    run_rebuild(em, rng);
     em.count_n("fit_not_exercised(extreme valid values)", NOT_EXERCISED.with(|c| c.get()));
     EXERCISED.with(|m| {
         for (k, v) in m.borrow().iter() {
@@ -1041,4 +1085,416 @@ pub fn run(em: &mut Em, rng: &mut Rng) {
         }
     });
     let _ = Pr::new(0.5);
+}
+
+// ------------------------------------------------------------------------------------ rebuild setters
+//
+// Every setter that does NOT assign a guarded field — above all the ones that construct a new parameter struct from
+// `self` (`GmmParams::with_rng`, `RandomProjectionParams::with_rng`, the wrapper setters of `TfIdfVectorizer`), but also
+// the plain `mut self` ones (`init_method`, `nn_algo`, `dist_fn`, `with_intercept`, `max_iterations`, kernels, …) — is
+// applied AFTER the value setters of a grid point (and, for the type-changing ones, BEFORE them as well); in the `rev`
+// variant the value setters themselves are called in reverse order.  The request says `rebuild=<variant>`; the model
+// applies its rebuild function (identity on the guarded fields, proved) and must give the same line.  `probe` applies
+// the whole oracle to the rebuilt builder — verdict against the REQUESTED values, exact checking error from the entry
+// point — and `expect` reads every guarded field back from the builder.
+fn run_rebuild(em: &mut Em, rng: &mut Rng) {
+    use rand::SeedableRng as _;
+    let th = em.thorough();
+    let cap = if th { 600 } else { 120 };
+    let fg = fgrid(false);
+    let cg = cgrid(false);
+    let (nf, nc) = (fg.len(), cg.len());
+    let fb = fg.iter().position(|x| *x == 0.5).unwrap();
+    let cb = cg.iter().position(|x| *x == 2).unwrap();
+    let small = || rand::rngs::SmallRng::seed_from_u64(11);
+
+    // ---- Gaussian mixture: with_rng (type-changing struct literal) after / before, init_method + covariance_type, rev
+    for t in points(&[nc, nf, nf, nc, nc], &[cb, fb, fb, cb, cb], cap, rng) {
+        let (k, tol, reg, r, mi) = (cg[t[0]], fg[t[1]], fg[t[2]], cg[t[3]], cg[t[4]]);
+        let viol = first(&[(k >= 1, "n_clusters>=1"), (pos(tol), "tolerance>0"), (nonneg(reg), "reg_covar>=0"), (r >= 1, "n_runs>=1"), (mi >= 1, "max_n_iter>=1")]);
+        let fin = tol.is_finite() && reg.is_finite();
+        for variant in ["with_rng:after", "with_rng:before", "other:init_method+covariance_type:after", "rev"] {
+            em.count(&format!("rebuild:Gmm:{}", variant));
+            em.case(format!("grid b=Gmm via=fit rebuild={} n_clusters={} tolerance={} reg_covar={} n_runs={} max_n_iter={}", variant, k, h(tol), h(reg), r, mi), |ctx| {
+                train_always();
+                let b = format!("Gmm:{}", variant);
+                let ds = DatasetBase::from(xs());
+                let exp = [("n_clusters", dbg(&k)), ("tolerance", dbg(&tol)), ("reg_covar", dbg(&reg)), ("n_runs", dbg(&r)), ("max_n_iter", dbg(&mi))];
+                expect(&exp);
+                let base = || linfa_clustering::GaussianMixtureModel::params_with_rng(k, rng7());
+                match variant {
+                    "with_rng:after" => {
+                        let p = base().tolerance(tol).reg_covariance(reg).n_runs(r as u64).max_n_iterations(mi as u64).with_rng(small());
+                        probe(ctx, &b, || p.clone(), viol.clone(), fin, |p| dbg(p), |c| dbg(c), |e| dbg(&e), |p| res!(p.fit(&ds)), |c| res!(c.fit(&ds)))
+                    }
+                    "with_rng:before" => {
+                        let p = base().with_rng(small()).tolerance(tol).reg_covariance(reg).n_runs(r as u64).max_n_iterations(mi as u64);
+                        probe(ctx, &b, || p.clone(), viol.clone(), fin, |p| dbg(p), |c| dbg(c), |e| dbg(&e), |p| res!(p.fit(&ds)), |c| res!(c.fit(&ds)))
+                    }
+                    "rev" => {
+                        let p = base().max_n_iterations(mi as u64).n_runs(r as u64).reg_covariance(reg).tolerance(tol);
+                        probe(ctx, &b, || p.clone(), viol.clone(), fin, |p| dbg(p), |c| dbg(c), |e| dbg(&e), |p| res!(p.fit(&ds)), |c| res!(c.fit(&ds)))
+                    }
+                    _ => {
+                        let p = base().tolerance(tol).reg_covariance(reg).n_runs(r as u64).max_n_iterations(mi as u64).init_method(linfa_clustering::GmmInitMethod::Random).covariance_type(linfa_clustering::GmmCovarType::Full);
+                        probe(ctx, &b, || p.clone(), viol.clone(), fin, |p| dbg(p), |c| dbg(c), |e| dbg(&e), |p| res!(p.fit(&ds)), |c| res!(c.fit(&ds)))
+                    }
+                }
+            });
+        }
+    }
+    // ---- random projection: with_rng (type-changing) after / before the Dimension | Epsilon setter
+    {
+        let mut vs: Vec<(String, Option<usize>, Option<f64>)> = vec![];
+        for d in &cg {
+            vs.push((format!("Dimension:{}", d), Some(*d), None));
+        }
+        for e in &fg {
+            vs.push((format!("Epsilon:{}", h(*e)), None, Some(*e)));
+        }
+        for (s, d, e) in vs {
+            let viol = match (d, e) {
+                (Some(d), _) => first(&[(d >= 1, "target_dim>=1")]),
+                (_, Some(e)) => first(&[(e > 0.0 && e < 1.0, "0<eps<1")]),
+                _ => None,
+            };
+            let finite = e.map_or(true, |e| e.is_finite());
+            for variant in ["with_rng:after", "with_rng:before"] {
+                em.count(&format!("rebuild:RandomProjection:{}", variant));
+                macro_rules! rp {
+                    ($kind:expr, $ty:ident) => {
+                        em.case(format!("grid b=RandomProjection via=fit rebuild={} kind={} params={}", variant, $kind, s), |ctx| {
+                            train_always();
+                            macro_rules! set {
+                                ($p:expr) => {{
+                                    let mut p = $p;
+                                    if let Some(d) = d {
+                                        p = p.target_dim(d);
+                                    }
+                                    if let Some(e) = e {
+                                        p = p.eps(e);
+                                    }
+                                    p
+                                }};
+                            }
+                            let ds = DatasetBase::from(xs());
+                            let b = format!("RandomProjection:{}", variant);
+                            // the unchecked builder has neither Debug nor accessors: the values are read back from the
+                            // checked form (`probe` requires the printed unchecked side to contain the checked one)
+                            if variant == "with_rng:after" {
+                                let mk = || set!(linfa_reduction::random_projection::$ty::<f64>::params_with_rng(rng7())).with_rng(small());
+                                probe(ctx, &b, mk, viol.clone(), finite, |_| format!("{:?}/{:?}", d, e), |c| format!("{:?}/{:?}", c.target_dim(), c.eps()), |e| dbg(&e),
+                                    |p| p.fit(&ds).map(|_| "model".to_string()).map_err(|e| dbg(&e)), |c| c.fit(&ds).map(|_| "model".to_string()).map_err(|e| dbg(&e)))
+                            } else {
+                                let mk = || set!(linfa_reduction::random_projection::$ty::<f64>::params_with_rng(rng7()).with_rng(small()));
+                                probe(ctx, &b, mk, viol.clone(), finite, |_| format!("{:?}/{:?}", d, e), |c| format!("{:?}/{:?}", c.target_dim(), c.eps()), |e| dbg(&e),
+                                    |p| p.fit(&ds).map(|_| "model".to_string()).map_err(|e| dbg(&e)), |c| c.fit(&ds).map(|_| "model".to_string()).map_err(|e| dbg(&e)))
+                            }
+                        });
+                    };
+                }
+                rp!("gaussian", GaussianRandomProjection);
+                rp!("sparse", SparseRandomProjection);
+            }
+        }
+    }
+    // ---- k-means: init_method after the value setters; value setters reversed
+    for t in points(&[nc, nc, nf, nc], &[cb, cb, fb, cb], cap, rng) {
+        let (k, r, tol, mi) = (cg[t[0]], cg[t[1]], fg[t[2]], cg[t[3]]);
+        for variant in ["other:init_method:after", "rev"] {
+            em.count(&format!("rebuild:KMeans:{}", variant));
+            em.case(format!("grid b=KMeans via=fit rebuild={} n_clusters={} n_runs={} tolerance={} max_n_iterations={}", variant, k, r, h(tol), mi), |ctx| {
+                train_always();
+                let base = || linfa_clustering::KMeans::params_with(k, rng7(), linfa_nn::distance::L2Dist);
+                let p = if variant == "rev" { base().max_n_iterations(mi as u64).tolerance(tol).n_runs(r) } else { base().n_runs(r).tolerance(tol).max_n_iterations(mi as u64).init_method(linfa_clustering::KMeansInit::Random) };
+                let viol = first(&[(k >= 1, "n_clusters>=1"), (r >= 1, "n_runs>=1"), (pos(tol), "tolerance>0"), (mi >= 1, "max_n_iterations>=1")]);
+                let ds = DatasetBase::from(xs());
+                expect(&[("n_clusters", dbg(&k)), ("n_runs", dbg(&r)), ("tolerance", dbg(&tol)), ("max_n_iterations", dbg(&mi))]);
+                probe(ctx, &format!("KMeans:{}", variant), || p.clone(), viol, tol.is_finite(), |p| dbg(p), |c| dbg(c), |e| format!("InvalidParams({:?})", e), |p| res!(p.fit(&ds)), |c| res!(c.fit(&ds)))
+            });
+        }
+    }
+    // ---- DBSCAN / OPTICS: nn_algo and dist_fn after the tolerance
+    for t in points(&[nc, nf], &[cb, fb], cap, rng) {
+        let (mp, tol) = (cg[t[0]], fg[t[1]]);
+        let variant = "other:nn_algo+dist_fn:after";
+        em.count("rebuild:Dbscan");
+        em.case(format!("grid b=Dbscan via=transform rebuild={} min_points={} tolerance={}", variant, mp, h(tol)), |ctx| {
+            train_always();
+            let p = linfa_clustering::Dbscan::params(mp).tolerance(tol).nn_algo(linfa_nn::CommonNearestNeighbour::BallTree).dist_fn(linfa_nn::distance::L2Dist);
+            let viol = first(&[(mp >= 2, "min_points>=2"), (pos(tol), "tolerance>0")]);
+            let x = xs();
+            expect(&[("min_points", dbg(&mp)), ("tolerance", dbg(&tol))]);
+            probe(ctx, &format!("Dbscan:{}", variant), || p.clone(), viol, tol.is_finite(), |p| dbg(p), |c| dbg(c), |e| dbg(&e), |p| res!(p.transform(&x)), |c| Ok(dbg(&c.transform(&x))))
+        });
+        em.count("rebuild:Optics");
+        em.case(format!("grid b=Optics via=transform rebuild={} tolerance={} min_points={}", variant, h(tol), mp), |ctx| {
+            train_always();
+            let p = linfa_clustering::Optics::params(mp).tolerance(tol).nn_algo(linfa_nn::CommonNearestNeighbour::BallTree).dist_fn(linfa_nn::distance::L2Dist);
+            let viol = first(&[(pos(tol), "tolerance>0"), (mp >= 2, "min_points>=2")]);
+            let x = xs();
+            expect(&[("min_points", dbg(&mp)), ("tolerance", dbg(&tol))]);
+            probe(ctx, &format!("Optics:{}", variant), || p.clone(), viol, tol.is_finite(), |p| dbg(p), |c| dbg(c), |e| dbg(&e), |p| res!(p.transform(x.view())), |c| Ok(dbg(&c.transform(x.view()))))
+        });
+    }
+    // ---- elastic net (single task): with_intercept + max_iterations after; reversed
+    for t in points(&[nf, nf, nf], &[fb, fb, fb], cap, rng) {
+        let (pen, l1, tol) = (fg[t[0]], fg[t[1]], fg[t[2]]);
+        let viol = first(&[(nonneg(pen), "penalty>=0"), (unit(l1), "0<=l1_ratio<=1"), (nonneg(tol), "tolerance>=0")]);
+        let finite = pen.is_finite() && l1.is_finite() && tol.is_finite();
+        for variant in ["other:with_intercept+max_iterations:after", "rev"] {
+            em.count(&format!("rebuild:ElasticNet:{}", variant));
+            em.case(format!("grid b=ElasticNet task=single via=fit rebuild={} penalty={} l1_ratio={} tolerance={}", variant, h(pen), h(l1), h(tol)), |ctx| {
+                train_always();
+                let base = || linfa_elasticnet::ElasticNet::<f64>::params();
+                let p = if variant == "rev" { base().max_iterations(50).tolerance(tol).l1_ratio(l1).penalty(pen) } else { base().penalty(pen).l1_ratio(l1).tolerance(tol).with_intercept(false).max_iterations(30) };
+                let ds = DatasetBase::new(xs(), ys_f());
+                expect(&[("penalty", dbg(&pen)), ("l1_ratio", dbg(&l1)), ("tolerance", dbg(&tol))]);
+                probe(ctx, &format!("ElasticNet:{}", variant), || p.clone(), viol.clone(), finite, |p| dbg(p), |c| dbg(c), |e| dbg(&e), |p| res!(p.fit(&ds)), |c| res!(c.fit(&ds)))
+            });
+        }
+    }
+    // ---- logistic (binary) and Tweedie: intercept / iteration setters after
+    for t in points(&[nf, nf], &[fb, fb], cap, rng) {
+        let (a, g) = (fg[t[0]], fg[t[1]]);
+        {
+            let variant = "other:with_intercept+max_iterations:after";
+            em.count("rebuild:Logistic");
+            em.case(format!("grid b=Logistic kind=binary via=fit rebuild={} alpha={} gradient_tolerance={} initial_params=none", variant, h(a), h(g)), |ctx| {
+                set_moderate(&[a, g]);
+                let p = linfa_logistic::LogisticRegression::<f64>::default().alpha(a).gradient_tolerance(g).with_intercept(false).max_iterations(10);
+                let viol = first(&[(nonneg(a), "alpha>=0"), (pos(g), "gradient_tolerance>0")]);
+                let ds = DatasetBase::new(xs(), ys_b());
+                expect(&[("alpha", dbg(&a)), ("gradient_tolerance", dbg(&g))]);
+                probe(ctx, &format!("Logistic:{}", variant), || p.clone(), viol, a.is_finite() && g.is_finite(), |p| dbg(p), |c| dbg(c), |e| dbg(&e), |p| res!(p.fit(&ds)), |c| res!(c.fit(&ds)))
+            });
+        }
+        {
+            // (`fit_intercept(false)` is not among them: with power = 1, alpha = 0.5 and no intercept the L-BFGS line search of
+            //  the checked AND the unchecked form does not return on the 12-row dataset)
+            let variant = "other:max_iter+tol:after";
+            em.count("rebuild:Tweedie");
+            em.case(format!("grid b=Tweedie via=fit rebuild={} alpha={} power={}", variant, h(a), h(g)), |ctx| {
+                set_moderate(&[a, g]);
+                let p = linfa_linear::TweedieRegressor::<f64>::params().alpha(a).power(g).max_iter(10).tol(1e-3);
+                let viol = first(&[(nonneg(a), "alpha>=0"), (g.is_finite() && (g <= 0.0 || g >= 1.0), "power not in (0,1)")]);
+                let ds = DatasetBase::new(xs(), ys_f());
+                expect(&[("alpha", dbg(&a)), ("power", dbg(&g))]);
+                probe(ctx, &format!("Tweedie:{}", variant), || p.clone(), viol, a.is_finite() && g.is_finite(), |p| dbg(p), |c| dbg(c), |e| dbg(&e), |p| res!(p.fit(&ds)), |c| res!(c.fit(&ds)))
+            });
+        }
+    }
+    // ---- SVM: kernel / shrinking setters after eps and the weights
+    for v in &fg {
+        let eps = *v;
+        let variant = "other:shrinking+gaussian_kernel:after";
+        em.count("rebuild:Svm");
+        em.case(format!("grid b=Svm via=fit rebuild={} platt.maxiter=100 platt.minstep={} platt.sigma={} solver_params_eps={} c={},{} nu=none", variant, h(1e-10), h(1e-12), h(eps), h(1.0), h(0.5)), |ctx| {
+            set_moderate(&[eps]);
+            let platt = Platt::<f64, ()>::params().maxiter(100).minstep(1e-10).sigma(1e-12);
+            let p = linfa_svm::Svm::<f64, bool>::params().with_platt_params(platt).eps(eps).pos_neg_weights(1.0, 0.5).shrinking(true).gaussian_kernel(2.0);
+            let viol = first(&[(nonneg(eps), "eps>=0")]);
+            let ds = DatasetBase::new(xs(), ys_b());
+            let runnable = eps >= 1e-4;
+            expect(&[("eps", dbg(&eps)), ("c", "Some((1.0, 0.5))".to_string()), ("nu", "None".to_string())]);
+            probe(ctx, &format!("Svm:{}", variant), || p.clone(), viol, eps.is_finite(), |p| dbg(p), |c| dbg(c), |e| dbg(&e),
+                |p| if runnable || p.check_ref().is_err() { res!(p.fit(&ds)) } else { Ok("skipped".into()) },
+                |c| if runnable { res!(c.fit(&ds)) } else { Ok("skipped".into()) })
+        });
+    }
+    // ---- decision tree, FastICA: the other setters after the guarded one
+    for v in &fg {
+        let x = *v;
+        {
+            let variant = "other:split_quality+max_depth+min_weight_split+min_weight_leaf:after";
+            em.count("rebuild:DecisionTree");
+            em.case(format!("grid b=DecisionTree carrier=f64 via=fit rebuild={} min_impurity_decrease={}", variant, h(x)), |ctx| {
+                train_always();
+                let p = linfa_trees::DecisionTree::<f64, usize>::params().min_impurity_decrease(x).split_quality(linfa_trees::SplitQuality::Entropy).max_depth(Some(3)).min_weight_split(2.0).min_weight_leaf(1.0);
+                let viol = first(&[(x.is_finite() && x >= EPS, "min_impurity_decrease>=eps")]);
+                let ds = DatasetBase::new(xs(), ys_u());
+                expect(&[("min_impurity_decrease", dbg(&x))]);
+                probe(ctx, &format!("DecisionTree:{}", variant), || p.clone(), viol, x.is_finite(), |p| dbg(p), |c| dbg(c), |e| dbg(&e),
+                    |p| p.fit(&ds).map(|m| dbg(&m.predict(&xs()))).map_err(|e| dbg(&e)), |c| c.fit(&ds).map(|m| dbg(&m.predict(&xs()))).map_err(|e| dbg(&e)))
+            });
+        }
+        {
+            let variant = "other:ncomponents+gfunc+max_iter+random_state:after";
+            em.count("rebuild:FastIca");
+            em.case(format!("grid b=FastIca via=fit rebuild={} tol={}", variant, h(x)), |ctx| {
+                train_always();
+                let p = linfa_ica::fast_ica::FastIca::<f64>::params().tol(x).ncomponents(2).gfunc(linfa_ica::fast_ica::GFunc::Exp).max_iter(10).random_state(3);
+                let viol = first(&[(nonneg(x), "tol>=0")]);
+                let ds = DatasetBase::from(xs());
+                expect(&[("tol", dbg(&x))]);
+                probe(ctx, &format!("FastIca:{}", variant), || p.clone(), viol, x.is_finite(), |p| dbg(p), |c| dbg(c), |e| dbg(&e), |p| res!(p.fit(&ds)), |c| res!(c.fit(&ds)))
+            });
+        }
+    }
+    // ---- FTRL: rng setter after; reversed
+    for t in points(&[nf, nf, nf, nf], &[fb, fb, fb, fb], cap, rng) {
+        let (l1, l2, al, be) = (fg[t[0]], fg[t[1]], fg[t[2]], fg[t[3]]);
+        for variant in ["other:rng:after", "rev"] {
+            em.count(&format!("rebuild:Ftrl:{}", variant));
+            em.case(format!("grid b=Ftrl via=fit_with rebuild={} l1_ratio={} l2_ratio={} alpha={} beta={}", variant, h(l1), h(l2), h(al), h(be)), |ctx| {
+                train_always();
+                let base = || linfa_ftrl::Ftrl::<f64>::params_with_rng(rng7());
+                let p = if variant == "rev" { base().beta(be).alpha(al).l2_ratio(l2).l1_ratio(l1) } else { base().l1_ratio(l1).l2_ratio(l2).alpha(al).beta(be).rng(rng7()) };
+                let viol = first(&[(unit(l1), "0<=l1_ratio<=1"), (unit(l2), "0<=l2_ratio<=1"), (nonneg(al), "alpha>=0"), (nonneg(be), "beta>=0")]);
+                let ds = DatasetBase::new(xs(), ys_b());
+                expect(&[("l1_ratio", dbg(&l1)), ("l2_ratio", dbg(&l2)), ("alpha", dbg(&al)), ("beta", dbg(&be))]);
+                probe(ctx, &format!("Ftrl:{}", variant), || p.clone(), viol, l1.is_finite() && l2.is_finite() && al.is_finite() && be.is_finite(), |p| dbg(p), |c| dbg(c), |e| dbg(&e),
+                    |p| res!(p.fit_with(None, &ds)), |c| res!(c.fit_with(None, &ds)))
+            });
+        }
+    }
+    // ---- PLS regression: scale + algorithm after; reversed (no Debug / accessors: outcome only)
+    for t in points(&[nf, nc], &[fb, cb], cap, rng) {
+        let (tol, mi) = (fg[t[0]], cg[t[1]]);
+        let viol = first(&[(nonneg(tol), "tolerance>=0"), (mi >= 1, "max_iter>=1")]);
+        for variant in ["other:scale+algorithm:after", "rev"] {
+            em.count(&format!("rebuild:Pls:{}", variant));
+            em.case(format!("grid b=PlsMacro kind=regression via=fit rebuild={} tolerance={} max_iter={}", variant, h(tol), mi), |ctx| {
+                train_always();
+                let mk = || if variant == "rev" { linfa_pls::PlsRegression::<f64>::params(1).max_iterations(mi).tolerance(tol) } else { linfa_pls::PlsRegression::<f64>::params(1).tolerance(tol).max_iterations(mi).scale(false).algorithm(linfa_pls::Algorithm::Nipals) };
+                let ds = DatasetBase::new(xs(), ys_2());
+                probe(ctx, &format!("PlsMacro:{}", variant), mk, viol.clone(), tol.is_finite(), |_| "PlsParams".to_string(), |_| "PlsParams".to_string(), |e| dbg(&e),
+                    |p| p.fit(&ds).map(|m| dbg(&m.weights())).map_err(|e| dbg(&e)), |c| c.fit(&ds).map(|m| dbg(&m.weights())).map_err(|e| dbg(&e)))
+            });
+        }
+    }
+    // ---- t-SNE: iteration setters after; reversed
+    for t in points(&[nf, nf], &[fb, fb], cap, rng) {
+        let (pe, th_) = (fg[t[0]], fg[t[1]]);
+        for variant in ["other:max_iter+preliminary_iter:after", "rev"] {
+            em.count(&format!("rebuild:TSne:{}", variant));
+            em.case(format!("grid b=TSne via=try:array rebuild={} perplexity={} approx_threshold={}", variant, h(pe), h(th_)), |ctx| {
+                set_moderate(&[pe, th_]);
+                let base = || linfa_tsne::TSneParams::embedding_size_with_rng(2, rng7());
+                let p = if variant == "rev" { base().max_iter(3).approx_threshold(th_).perplexity(pe) } else { base().perplexity(pe).approx_threshold(th_).max_iter(3).preliminary_iter(1) };
+                let viol = first(&[(nonneg(pe), "perplexity>=0"), (nonneg(th_), "approx_threshold>=0")]);
+                let runnable = pe.is_finite() && th_.is_finite() && pe >= 0.5 && pe <= 2.0;
+                expect(&[("perplexity", dbg(&pe)), ("approx_threshold", dbg(&th_))]);
+                probe(ctx, &format!("TSne:{}", variant), || p.clone(), viol, pe.is_finite() && th_.is_finite(), |p| dbg(p), |c| dbg(c), |e| dbg(&e),
+                    |p| if runnable || p.check_ref().is_err() { p.transform(xs()).map(|m| dbg(&m.dim())).map_err(|e| dbg(&e)) } else { Ok("skipped".into()) },
+                    |c| if runnable { c.transform(xs()).map(|m| dbg(&m.dim())).map_err(|e| dbg(&e)) } else { Ok("skipped".into()) })
+            });
+        }
+    }
+    // ---- hierarchical clustering: with_method after the stopping criterion
+    {
+        let mut vs: Vec<(String, Option<usize>, Option<f64>)> = vec![];
+        for d in &cg {
+            vs.push((format!("NumClusters:{}", d), Some(*d), None));
+        }
+        for e in &fg {
+            vs.push((format!("Distance:{}", h(*e)), None, Some(*e)));
+        }
+        for (s, d, e) in vs {
+            let viol = match (d, e) {
+                (Some(d), _) => first(&[(d >= 1, "num_clusters>=1")]),
+                (_, Some(e)) => first(&[(nonneg(e), "max_distance>=0")]),
+                _ => None,
+            };
+            let variant = "other:with_method:after";
+            em.count("rebuild:Hierarchical");
+            em.case(format!("grid b=Hierarchical via=transform rebuild={} stopping={}", variant, s), |ctx| {
+                train_always();
+                let mut p = linfa_hierarchical::HierarchicalCluster::<f64>::default();
+                if let Some(d) = d {
+                    p = p.num_clusters(d);
+                    expect(&[("stopping", format!("NumClusters({:?})", d))]);
+                }
+                if let Some(e) = e {
+                    p = p.max_distance(e);
+                    expect(&[("stopping", format!("Distance({:?})", e))]);
+                }
+                p = p.with_method(linfa_hierarchical::Method::Single);
+                probe(ctx, &format!("Hierarchical:{}", variant), || p.clone(), viol.clone(), e.map_or(true, |e| e.is_finite()), |p| dbg(p), |c| dbg(c), |e| dbg(&e),
+                    |p| p.transform(kernel()).map(|d| canon(d.targets())).map_err(|e| dbg(&e)), |c| Ok(canon(c.transform(kernel()).targets())))
+            });
+        }
+    }
+    // ---- count vectoriser and the TfIdfVectorizer wrapper (all of whose setters rebuild the wrapper): the setters
+    //      that do not touch a guarded field after the guarded ones; reversed
+    {
+        let f32g = fgrid32(false);
+        let n32 = f32g.len();
+        let b32 = f32g.iter().position(|x| *x == 0.5).unwrap();
+        let ng: Vec<usize> = vec![0, 1, 2, 3];
+        let texts = ["one two three four", "one two three", "one two", "one five six"];
+        for t in points(&[ng.len(), ng.len(), n32, n32, 2], &[1, 2, 2, b32, 1], cap, rng) {
+            let (a, b, lo, hi, rok) = (ng[t[0]], ng[t[1]], f32g[t[2]], f32g[t[3]], t[4] == 1);
+            for (variant, form) in [("other:max_features+convert_to_lowercase+normalize+stopwords:after", "and_then:fit"), ("rev", "and_then:fit"), ("other:max_features+convert_to_lowercase+normalize+stopwords:after", "wrap:tfidf_fit"), ("rev", "wrap:tfidf_fit")] {
+                em.count(&format!("rebuild:CountVectorizer:{}", form));
+                em.case(format!("grid b=CountVectorizer via={} rebuild={} n_gram_range={},{} document_frequency={},{} split_regex_ok={}", form, variant, a, b, h(lo), h(hi), rok as u8), |ctx| {
+                    train_always();
+                    let bad = || linfa_preprocessing::Tokenizer::Regex("(unclosed".to_string());
+                    let (mut p, mut tf) = (linfa_preprocessing::CountVectorizer::params(), linfa_preprocessing::tf_idf_vectorization::TfIdfVectorizer::default());
+                    if variant == "rev" {
+                        if !rok {
+                            p = p.tokenizer(bad());
+                            tf = tf.tokenizer(bad());
+                        }
+                        p = p.document_frequency(lo as f32, hi as f32).n_gram_range(a, b);
+                        tf = tf.document_frequency(lo as f32, hi as f32).n_gram_range(a, b);
+                    } else {
+                        p = p.n_gram_range(a, b).document_frequency(lo as f32, hi as f32);
+                        tf = tf.n_gram_range(a, b).document_frequency(lo as f32, hi as f32);
+                        if !rok {
+                            p = p.tokenizer(bad());
+                            tf = tf.tokenizer(bad());
+                        }
+                        p = p.max_features(Some(50)).convert_to_lowercase(false).normalize(false).stopwords(&["zzz"]);
+                        tf = tf.max_features(Some(50)).convert_to_lowercase(false).normalize(false).stopwords(&["zzz"]);
+                    }
+                    let viol = first(&[(a >= 1 && b >= 1, "n_gram>=1"), (a <= b, "min_n<=max_n"), (unit(lo), "0<=min_freq<=1"), (unit(hi), "0<=max_freq<=1"), (lo <= hi, "min_freq<=max_freq"), (rok, "regex valid")]);
+                    let docs = Array1::from(texts.to_vec());
+                    let show = |s: String| -> String {
+                        match (s.find("split_regex: "), s.find("n_gram_range: ")) {
+                            (Some(i), Some(j)) if i < j => format!("{}{}", &s[..i], &s[j..]),
+                            _ => s,
+                        }
+                    };
+                    let voc = |v: &Vec<String>| { let mut v = v.clone(); v.sort(); dbg(&v) };
+                    // the wrapper has Debug: its inner builder must hold the requested values too
+                    let tf_text = dbg(&tf);
+                    for (name, val) in [("n_gram_range", dbg(&(a, b))), ("document_frequency", dbg(&(lo as f32, hi as f32)))] {
+                        ctx.require(has_field(&tf_text, name, &val), "params_unchanged", &format!("TfIdfVectorizer:{}:readback:{}", variant, name), || format!("after all setter calls the TfIdfVectorizer does not hold {} = {}: {}", name, val, tf_text));
+                    }
+                    expect(&[("n_gram_range", dbg(&(a, b))), ("document_frequency", dbg(&(lo as f32, hi as f32)))]);
+                    let bname = format!("CountVectorizer:{}:{}", form.split(':').nth(1).unwrap(), variant);
+                    probe(ctx, &bname, || p.clone(), viol, lo.is_finite() && hi.is_finite(), |p| show(dbg(p)), |c| show(dbg(c)), |e| dbg(&e),
+                        |p| if form == "and_then:fit" { p.fit(&docs).map(|m| voc(m.vocabulary())).map_err(|e| dbg(&e)) } else { tf.fit(&docs).map(|m| voc(m.vocabulary())).map_err(|e| dbg(&e)) },
+                        |c| c.fit(&docs).map(|m| voc(m.vocabulary())).map_err(|e| dbg(&e)))
+                });
+            }
+        }
+    }
+    // ---- Platt, diffusion map: value setters reversed (they have no other setter)
+    for t in points(&[nc, nf, nf], &[cb, fb, fb], cap, rng) {
+        let (mi, ms, sg) = (cg[t[0]], fg[t[1]], fg[t[2]]);
+        em.count("rebuild:Platt:rev");
+        em.case(format!("grid b=Platt via=fit_with rebuild=rev maxiter={} minstep={} sigma={}", mi, h(ms), h(sg)), |ctx| {
+            set_moderate(&[ms, sg]);
+            let p = Platt::<f64, FirstColumn>::params().sigma(sg).minstep(ms).maxiter(mi);
+            let viol = first(&[(mi >= 1, "maxiter>=1"), (nonneg(ms), "minstep>=0"), (nonneg(sg), "sigma>=0")]);
+            let ds = DatasetBase::new(xs(), ys_b());
+            expect(&[("maxiter", dbg(&mi)), ("minstep", dbg(&ms)), ("sigma", dbg(&sg))]);
+            probe(ctx, "Platt:rev", || p.clone(), viol, ms.is_finite() && sg.is_finite(), |p| dbg(p), |c| dbg(c), |e: PlattError| dbg(&e),
+                |p| res!(p.fit_with(FirstColumn, &ds)), |c| res!(c.fit_with(FirstColumn, &ds)))
+        });
+    }
+    for t in points(&[nc, nc], &[cb, cb], cap, rng) {
+        let (st, es) = (cg[t[0]], cg[t[1]]);
+        em.count("rebuild:DiffusionMap:rev");
+        em.case(format!("grid b=DiffusionMap via=transform rebuild=rev steps={} embedding_size={}", st, es), |ctx| {
+            train_always();
+            let p = linfa_reduction::DiffusionMap::<f64>::params(1).steps(st).embedding_size(es);
+            let viol = first(&[(st >= 1, "steps>=1"), (es >= 1, "embedding_size>=1")]);
+            let k = kernel();
+            expect(&[("steps", dbg(&st)), ("embedding_size", dbg(&es))]);
+            probe(ctx, "DiffusionMap:rev", || p.clone(), viol, true, |p| dbg(p), |c| dbg(c), |e| dbg(&e), |p| res!(p.transform(&k)), |c| Ok(dbg(&c.transform(&k))))
+        });
+    }
 }
